@@ -41,8 +41,9 @@ BOUNDS = {
               "mapping": "same / mapped (basinmap0)",
               "formats": "root local or remote; targets local-file or remote",
               "availability": "every target available or not"},
-    "thorough": {"files": 4, "basin references": "all subsets of 10 selected "
-                 "ordered pairs over 4 files (chains, diamond, cycles)"},
+    "thorough": {"files": 4, "basin references": "all subsets of 7 selected "
+                 "ordered pairs over 4 files (chain, diamond, 2-/3-/4-cycles, "
+                 "self reference)"},
 }
 OUTSIDE = ["real HTTP/S3/DCOR access", "path resolution on a real file "
            "system (absolute/relative is a stub)", "more files than the "
@@ -295,10 +296,11 @@ def cases(tier, seed):
         rid_sets = [[a, b] for a in ID_OPTS for b in (None, "ab-c")]
     else:
         nf = 4
-        edges = [(0, 1), (1, 2), (2, 3), (3, 0), (0, 2), (1, 3), (2, 1),
-                 (0, 0)]
-        rid_sets = [[a, b, c] for a in ID_OPTS for b in (None, "ab-c", "ab")
-                    for c in ("ab-c", None)]
+        # 7 reference edges over 4 files (chain, diamond, 2-/3-/4-cycles,
+        # self reference); sized so that the thorough run stays below ~20 min
+        edges = [(0, 1), (1, 2), (2, 3), (3, 0), (0, 2), (2, 1), (0, 0)]
+        rid_sets = [[a, b, "ab-c"] for a in ID_OPTS
+                    for b in (None, "ab-c", "ab")]
     for rid0 in (None, REF_ID):
         for rids in rid_sets:
             for mapping in ("same", "mapped"):
